@@ -253,7 +253,7 @@ func checkGSVDInner(c gsvdCase) *vk.Failure {
 }
 
 func TestGSVD(t *testing.T) {
-	vk.Run(t, "gsvd", vk.Opts{Quick: 600, Thorough: 15000}, drawGSVD, checkGSVD)
+	vk.Run(t, "gsvd", vk.Opts{Quick: 2000, Thorough: 45000}, drawGSVD, checkGSVD)
 }
 
 // ---- HOGSVD ------------------------------------------------------------------
@@ -407,5 +407,5 @@ func checkHOGSVD(c hogsvdCase) *vk.Failure {
 }
 
 func TestHOGSVD(t *testing.T) {
-	vk.Run(t, "hogsvd", vk.Opts{Quick: 400, Thorough: 10000}, drawHOGSVD, checkHOGSVD)
+	vk.Run(t, "hogsvd", vk.Opts{Quick: 1200, Thorough: 30000}, drawHOGSVD, checkHOGSVD)
 }
